@@ -1,6 +1,7 @@
 import NeumannModel.Common.Proto
 import NeumannModel.Parse.Model
 import NeumannModel.Parse.Select
+import NeumannModel.Parse.Nest
 /-
   Line-protocol driver for the expression-parser model (C15).
 
@@ -23,6 +24,13 @@ import NeumannModel.Parse.Select
                                     WHR = `-` | T; `err too_deep <tokidx>` | `err eof <expected>` |
                                     `err unexpected <expected> <tokidx>` (expected = `(` `)` `SELECT`
                                     `identifier` `expression`) | `outside` (input leaves the fragment)
+            nest <ntok>*            model of neumann_parser::parse on the expression × subquery fragment
+                                    (Nest.lean): ntok = `select` `from` `where` `exists` `in` `(` `)` `n<k>`
+                                    (integer literal) `c<k>` (identifier) add sub mul … `not` `bang` `tilde`
+                                    `other`; answers `ok <frames> <sdepth> Q` with Q = `(q E SRC WHR)`,
+                                    SRC = `-` | `c<k>` | Q, WHR = `-` | E, E = `n<k>` | `c<k>` | `*` | `()` |
+                                    `(neg E)` | `(add L R)` | `(exists Q)` | `(in E Q)` | `(notin E Q)` |
+                                    `(in E)` | `(in E V)` …; errors / `outside` as for `sel`
 -/
 open Neumann Neumann.Proto Neumann.Parse
 
@@ -159,9 +167,68 @@ def showSelRes (n : Nat) : Sel.Res Sel.Q → String
   | .error .fuel => "err fuel"
   | .outside => "outside"
 
+/-! ### expression × subquery fragment (`Neumann.Parse.Nest`) -/
+
+def readPfx (c : Char) (s : String) : Option Nat :=
+  match s.toList with
+  | c' :: ds => if c' == c && !ds.isEmpty then (String.ofList ds).toNat? else none
+  | _ => none
+
+def readNTok (s : String) : Option Nest.NTok :=
+  match s with
+  | "select" => some .select
+  | "from" => some .fromKw
+  | "where" => some .whereKw
+  | "exists" => some .existsKw
+  | "in" => some .inKw
+  | "(" => some .lparen
+  | ")" => some .rparen
+  | "not" => some .notKw
+  | "bang" => some .bang
+  | "tilde" => some .tilde
+  | "other" => some .other
+  | _ => match readBin s with
+    | some o => some (.op o)
+    | none => match readPfx 'n' s with
+      | some k => some (.num k)
+      | none => (readPfx 'c' s).map Nest.NTok.id
+
+mutual
+def showNE : Nest.E → String
+  | .num n => s!"n{n}"
+  | .col n => s!"c{n}"
+  | .wildcard => "*"
+  | .unit => "()"
+  | .un u e => "(" ++ unName u ++ " " ++ showNE e ++ ")"
+  | .bin l o r => "(" ++ binName o ++ " " ++ showNE l ++ " " ++ showNE r ++ ")"
+  | .exists q => "(exists " ++ showNQ q ++ ")"
+  | .inSub e neg q => (if neg then "(notin " else "(in ") ++ showNE e ++ " " ++ showNQ q ++ ")"
+  | .inNil e neg => (if neg then "(notin " else "(in ") ++ showNE e ++ ")"
+  | .inOne e neg v => (if neg then "(notin " else "(in ") ++ showNE e ++ " " ++ showNE v ++ ")"
+def showNQ : Nest.Q → String
+  | .mk item src whr => "(q " ++ showNE item ++ " " ++ showNSrc src ++ " " ++ showNWhr whr ++ ")"
+def showNSrc : Nest.Src → String
+  | .none => "-"
+  | .tbl n => s!"c{n}"
+  | .sub q => showNQ q
+def showNWhr : Nest.Whr → String
+  | .none => "-"
+  | .cond e => showNE e
+end
+
+def showNestRes (n : Nat) : Sel.Res Nest.Q → String
+  | .ok q => s!"ok {q.frames} {q.sdepth} " ++ showNQ q
+  | .error (.tooDeep rem) => s!"err too_deep {n - rem}"
+  | .error (.eof x) => "err eof " ++ showSExpect x
+  | .error (.unexpected x rem) => s!"err unexpected {showSExpect x} {n - rem}"
+  | .error .fuel => "err fuel"
+  | .outside => "outside"
+
 def parseStep (_ : Unit) (line : String) : Unit × String :=
   let bad := ((), "bad-op")
   match words line with
+  | "nest" :: ws => match ws.mapM readNTok with
+      | some ts => ((), showNestRes ts.length (Nest.parseStmt ts)) | none => bad
   | "sel" :: ws => match ws.mapM readSTok with
       | some ts => ((), showSelRes ts.length (Sel.parseStmt ts)) | none => bad
   | "parse" :: ws => match ws.mapM readTok with
